@@ -6,6 +6,7 @@ CONSTANTS
   MaxN = 3
   ScratchSize = "code"
   Finished = "last"
+  GrowLoop = "while"
   EarlyExit = FALSE
 INVARIANT CodesOk
 INVARIANT Refines
